@@ -129,9 +129,21 @@ def build(repo=None):
 
         eng.method_models["signature"] = m_signature
         eng.method_models["__listcomp__"] = lambda e, s, node: [(s, Opaque("list-built-by-a-comprehension"))]
-        eng.method_models["replace"] = lambda e, s, recv, a, kw, nd: [(s, Opaque("signature'", attrs={"parameters": Opaque("parameters"), "return_annotation": Opaque("ret-annotation")}))]
+        def m_replace(e, s, recv, a, kw, nd):
+            s1_ = s.clone()
+            s1_.ghost["replace_calls"] = s1_.ghost.get("replace_calls", []) + [(getattr(recv, "tag", "?"), sorted(kw))]
+            return [(s1_, Opaque("signature'", attrs={"parameters": Opaque("parameters"), "return_annotation": Opaque("ret-annotation")}))]
+
+        eng.method_models["replace"] = m_replace
         eng.method_models["items"] = lambda e, s, recv, a, kw, nd: [(s, Opaque("items"))] if isinstance(recv, Opaque) else None
-        eng.method_models["get"] = lambda e, s, recv, a, kw, nd: [(s, Opaque("got"))] if isinstance(recv, Opaque) else None
+        def m_get(e, s, recv, a, kw, nd):
+            if not isinstance(recv, Opaque):
+                return None
+            s1_ = s.clone()
+            s1_.ghost["hint_gets"] = s1_.ghost.get("hint_gets", []) + [(recv.tag, a[1].tag if len(a) > 1 and isinstance(a[1], Opaque) else (repr(a[1]) if len(a) > 1 else "<no default>"))]
+            return [(s1_, Opaque("got"))]
+
+        eng.method_models["get"] = m_get
         eng.method_models["make_transparent"] = lambda e, s, recv, a, kw, nd: [(s, NONE)]
         def m_get_type_hints(e, s, a, kw, nd):
             # Annotated[...] metadata (e.g. beartype validators) must survive into the synthesised signatures: include_extras=True
@@ -236,6 +248,14 @@ def build(repo=None):
                 # __wrapped__ to the user's own signature (an own __signature__ / __annotations__ would replace it by a processed copy)
                 eng.oblige(s1, "C07:the-wrapper-gets-no-attribute-of-its-own-besides-what-functools.wraps-sets(signature-and-metadata-stay-the-function's)", z3.BoolVal(w is not None and set(w.attrs) == {"__wrapped__", "inner"}))
                 if tc_given:
+                    # resolving string annotations is best effort: where get_type_hints has no entry -- or fails altogether -- every parameter keeps
+                    # the annotation it was written with (a real annotation is never dropped)
+                    hg = [g_ for g_ in s1.ghost.get("hint_gets", []) if g_[0] == "hints"]
+                    eng.oblige(s1, "C07:an-annotation-that-get_type_hints-does-not-supply-falls-back-to-the-parameter's-own-annotation(never-to-'no-annotation')",
+                               z3.BoolVal(all(d_.endswith("annotation") for _, d_ in hg)), defaults=z3.StringVal(",".join(d_ for _, d_ in hg)))
+                    if "hints:NameError" in s1.path:
+                        eng.oblige(s1, "C07:when-get_type_hints-fails-the-signature-is-used-as-written(no-parameter-is-rewritten)",
+                                   z3.BoolVal(not any("parameters" in kws for _, kws in s1.ghost.get("replace_calls", [])) and not s1.ghost.get("hint_gets")))
                     sg = [c_ for c_ in s1.ghost.get("signature_calls", [])]
                     eng.oblige(s1, "C07:the-signature-is-taken-from-the-function-with-inspect.signature(fn)(defaults:-wrapped-functions-are-followed)",
                                z3.BoolVal(len(sg) >= 1 and all(len(a_) == 1 and a_[0] is fnv and not kw_ for a_, kw_ in sg)))
